@@ -51,6 +51,10 @@ Fixpoint beval (setup : string) (e : ienv) (b : bex) : option bool :=
   | BAnd x y => match beval setup e x with                   (* `and` short-circuits *)
                 | Some true => beval setup e y
                 | o => o end
+  | BOr x y => match beval setup e x with                    (* `or` short-circuits *)
+               | Some false => beval setup e y
+               | o => o end
+  | BNot x => match beval setup e x with Some b => Some (negb b) | None => None end
   | BSetup s => Some (String.eqb setup s)
   end.
 
